@@ -105,18 +105,17 @@ impl SourceMap {
             .collect()
     }
 
-    pub fn move_offsets(&mut self, scope: SymbolIndex, new_scope: SymbolIndex, new_span: Span) {
+    /// Moves all offsets starting at index `first` (i.e. everything that was emitted since the source map had `first` offsets)
+    pub fn move_offsets(&mut self, first: usize, new_scope: SymbolIndex, new_span: Span) {
         log::trace!(
-            "Trying to move offset from scope '{:?}' to scope '{:?}'",
-            scope,
+            "Trying to move offsets starting at '{}' to scope '{:?}'",
+            first,
             new_scope
         );
-        self.offsets.iter_mut().for_each(|offset| {
-            if offset.scope == scope {
-                log::trace!("Moved");
-                offset.scope = new_scope;
-                offset.span = new_span;
-            }
+        self.offsets.iter_mut().skip(first).for_each(|offset| {
+            log::trace!("Moved");
+            offset.scope = new_scope;
+            offset.span = new_span;
         });
     }
 }
